@@ -42,9 +42,12 @@ def run(chk, replay=None):
 
         # ---- model -> code: forced schedules on the real UDP servers
         sched_cfg = "C18_sched_quick.cfg" if tier == "quick" else "C18_sched_thorough.cfg"
-        clients, ops = ("[1,2]", "[0,0]") if tier == "quick" else ("[1,2,1]", "[0,5,0]")
+        clients, ops = ("[1,2]", "[0,0]") if tier == "quick" else ("[1,2,1,2]", "[0,5,0,6]")
         edges = os.path.join(d, "sched.ndjson")
-        r = vlib.run_tlc("MC_NameService", vlib.cfg(sched_cfg), emit_to=edges, timeout=900)
+        scfg = vlib.cfg(sched_cfg)
+        if tier == "thorough":     # 4 requests from 2 clients (query, registration, query, release): 32 871 states / 57 891 edges
+            scfg = scfg.replace("RC_3", "RC_4").replace("RO_3", "RO_4")
+        r = vlib.run_tlc("MC_NameService", scfg, emit_to=edges, timeout=900)
         chk.add_tlc("schedule_graph", r)
         opedges = os.path.join(d, "ops.ndjson")
         r = vlib.run_tlc("MC_NameService", vlib.cfg("C18_opcodes.cfg"), emit_to=opedges, timeout=300)
@@ -53,7 +56,7 @@ def run(chk, replay=None):
         jobs = []
         for srv in ("UDPServer", "Server"):
             for sh in range(shards):
-                jobs.append(("c18.sched", edges, {"server": srv, "max": 60 if tier == "quick" else 1500, "seed": chk.seed, "clients": clients, "ops": ops,
+                jobs.append(("c18.sched", edges, {"server": srv, "max": 60 if tier == "quick" else 1500, "hardmax": 0 if tier == "quick" else 9000, "seed": chk.seed, "clients": clients, "ops": ops,
                                                   "shard": sh, "shards": shards}, "sched_%s_%d" % (srv, sh), False))
             jobs.append(("c18.sched", opedges, {"server": srv, "max": 1, "seed": chk.seed, "clients": CL16, "ops": OPS16}, "opcodes_" + srv, False))
         jobs.append(("c18.tcpops", opedges, {"ops": OPS16}, "opcodes_TCPServer", False))
